@@ -17,7 +17,16 @@ import (
 	proto2 "google.golang.org/protobuf/proto"
 	"google.golang.org/protobuf/reflect/protoreflect"
 
+	"github.com/cosmos/cosmos-sdk/baseapp"
+	addresscodec "github.com/cosmos/cosmos-sdk/codec/address"
+	"github.com/cosmos/cosmos-sdk/runtime"
 	sdk "github.com/cosmos/cosmos-sdk/types"
+	"github.com/cosmos/cosmos-sdk/types/module"
+
+	orbiter "github.com/noble-assets/orbiter/v2"
+	modulev1 "github.com/noble-assets/orbiter/v2/api/module/v1"
+	orbkeeper "github.com/noble-assets/orbiter/v2/keeper"
+	"github.com/noble-assets/orbiter/v2/types/core"
 )
 
 type rpcInfo struct {
@@ -346,6 +355,7 @@ func checkC10(tier string) *Report {
 		}
 		rep.Sample(map[string]any{"rpc": label, "signer_field": ri.SignerField, "bodies": len(bodies), "signers": len(signers), "states": len(states)})
 	}
+	c10AuthorityConfigs(rep, w, rpcs, valid, states["S0(prior burn)"], states["S1(paused CCTP, cc CCTP:0, FEE)"])
 	// transaction level: the same RPCs in real signed transactions through the ante handler and baseapp (loop.go)
 	if err := loopAuthorityCheck(rep, rpcs, valid); err != nil {
 		rep.HarnessError("real transactions: %v", err)
@@ -357,4 +367,107 @@ func checkC10(tier string) *Report {
 
 func signAttestation(w *World, msg []byte) []byte {
 	return signWith(w.AttesterKeyHex, msg)
+}
+
+// c10AuthorityConfigs: "the configured authority" is a parameter of the module. The module is built again — by the
+// repository's own ProvideModule / InjectComponents / RegisterMsgServers, over the same stores — for every way the
+// `authority:` setting can be written (a module name, a module account's address, an ordinary address), and every RPC is
+// sent with the address that setting denotes (must succeed) and with strings that are not that address — among them the
+// setting's own text and other module names (must fail, state unchanged).
+func c10AuthorityConfigs(rep *Report, w *World, rpcs []rpcInfo, valid map[string]MsgSpec, states ...sdk.Context) {
+	app := w.App
+	configs := []string{"gov", core.ModuleName, "bank", moduleAddr("gov").String(), w.Alice.String()}
+	modNames := []string{"gov", core.ModuleName, "bank", "cctp", "transfer", "authority", "distribution"}
+	done := 0
+	for _, cfg := range configs {
+		var router *baseapp.MsgServiceRouter
+		err := func() (err error) {
+			defer func() {
+				if r := recover(); r != nil {
+					err = fmt.Errorf("%v", r)
+				}
+			}()
+			out := orbiter.ProvideModule(orbiter.ModuleInputs{Config: &modulev1.Module{Authority: cfg}, Codec: app.appCodec, AddressCodec: addresscodec.NewBech32Codec("noble"),
+				Logger: silentLogger, EventService: runtime.ProvideEventService(), StoreService: runtime.NewKVStoreService(app.GetKey(core.ModuleName)), BankKeeper: app.BankKeeper})
+			orbiter.InjectComponents(orbiter.ComponentsInputs{Orbiters: out.Keeper, BankKeeper: app.BankKeeper, CCTPKeeper: app.CCTPKeeper, WarpKeeper: app.WarpKeeper})
+			router = baseapp.NewMsgServiceRouter()
+			router.SetInterfaceRegistry(app.interfaceRegistry)
+			orbkeeper.RegisterMsgServers(module.NewConfigurator(app.appCodec, router, baseapp.NewGRPCQueryRouter()), out.Keeper)
+			return nil
+		}()
+		if err != nil {
+			rep.HarnessError("module with authority %q could not be built: %v", cfg, err)
+			return
+		}
+		// the address the setting denotes: itself when it is an address, otherwise the module account of that name
+		expected := cfg
+		if _, err := sdk.AccAddressFromBech32(cfg); err != nil {
+			expected = moduleAddr(cfg).String()
+		}
+		signers := []rcvEnc{{"mallory", w.Mallory.String()}, {"app-yaml-authority", w.Authority}, {"empty", ""}}
+		for _, n := range modNames {
+			signers = append(signers, rcvEnc{"module-name:" + n, n}, rcvEnc{"module-address:" + n, moduleAddr(n).String()})
+		}
+		if cfg != expected {
+			signers = append(signers, rcvEnc{"the-setting-text", cfg}, rcvEnc{"the-setting-text-padded", " " + cfg})
+		}
+		for _, ri := range rpcs {
+			label := ri.Service + "/" + ri.Method
+			if ri.GoType == nil || ri.SignerField == "" {
+				continue
+			}
+			var bodies []sdk.Msg
+			var validBody sdk.Msg
+			if vs, ok := valid[ri.Method]; ok {
+				vs.Signer = "x"
+				if vb, err := vs.Build(); err == nil {
+					validBody = vb
+					bodies = append(bodies, vb)
+				}
+			}
+			bodies = append(bodies, reflect.New(ri.GoType.Elem()).Interface().(sdk.Msg))
+			for si, st := range states {
+				pre := w.StateKey(st)
+				if validBody != nil && !(si == 0 && strings.HasPrefix(ri.Method, "Unpause")) {
+					b := Branch(st)
+					res := MsgVia(router, b, setSigner(validBody, ri, expected))
+					rep.Count("evaluations", 1)
+					if !res.OK || res.Panic != "" {
+						rep.Violate(Violation{Kind: "authority-refused", Group: ri.Method + " config", Sig: fmt.Sprintf("%s|config=%s|state#%d", label, cfg, si), Replay: mustJSON(map[string]any{"rpc": label, "authority_setting": cfg, "signer": expected}),
+							What: fmt.Sprintf("module configured with authority %q (= %s): the authority's valid %s was refused: %s %s", cfg, expected, label, res.Err, res.Panic)})
+					} else {
+						rep.Outcome("config-authority-succeeded")
+					}
+				}
+				for _, sg := range signers {
+					if a, err := sdk.AccAddressFromBech32(sg.S); err == nil && a.String() == expected {
+						continue
+					}
+					for bi, body := range bodies {
+						b := Branch(st)
+						res := MsgVia(router, b, setSigner(body, ri, sg.S))
+						rep.Count("evaluations", 1)
+						sig := fmt.Sprintf("%s config=%s signer=%s body#%d state#%d", label, cfg, sg.Name, bi, si)
+						switch {
+						case res.Panic != "":
+							rep.Violate(Violation{Kind: "panic", Group: ri.Method + " config signer=" + sg.Name, Sig: sig, Replay: mustJSON(map[string]any{"rpc": label, "authority_setting": cfg, "signer": sg.S}), What: "handler panicked: " + res.Panic + " " + sig})
+						case res.OK:
+							rep.Violate(Violation{Kind: "non-authority-accepted", Group: ri.Method + " config signer=" + sg.Name, Sig: sig, Replay: mustJSON(map[string]any{"rpc": label, "authority_setting": cfg, "signer": sg.S, "body": fmt.Sprint(body)}),
+								What: fmt.Sprintf("module configured with authority %q (= %s): %s accepted signer %q (%s)", cfg, expected, label, sg.S, sg.Name)})
+						case w.StateKey(b) != pre:
+							rep.Violate(Violation{Kind: "refused-but-state-changed", Group: ri.Method + " config", Sig: sig, Replay: mustJSON(map[string]any{"rpc": label, "authority_setting": cfg, "signer": sg.S}), What: "refused message changed state: " + sig})
+						default:
+							rep.Outcome("config-non-authority-refused")
+							if bi == 0 {
+								rep.Distinct(fmt.Sprintf("%s|config=%s|%s", label, cfg, sg.Name))
+							}
+						}
+					}
+				}
+			}
+		}
+		done++
+	}
+	rep.Extra["authority_settings"] = configs
+	rep.Guard(done == len(configs) && rep.Outcomes["config-authority-succeeded"] >= int64(8*len(configs)) && rep.Outcomes["config-non-authority-refused"] > 1000, "authority-configuration phase vacuous: %v", rep.Outcomes)
 }
